@@ -38,6 +38,7 @@ LEG = "kd_alias"
 THEOREMS = [
     "TDV.Alias.immutable_of_safe",
     "TDV.Alias.unsafe_mutates",
+    "TDV.Alias.immutable_iff_safe",
     "TDV.Alias.load_same_continuation",
     "TDV.Alias.get_transparent",
     "TDV.Alias.get_returns_content",
